@@ -272,6 +272,7 @@ def run(ctx):
         r3.fail(fg.qualname, "partition-args", fg.file, fg.lineno, "__Get_partitioned_groupElems", f"partition data ({', '.join(args)}) are not passed as (owned elements, owned nodes, rank, ghost elements) = {ps}")
 
     ownership_rule(ctx, fg)
+    ghost_scope_rule(ctx, fg)
     r4 = ctx.rule("R20.4", "merge bookkeeping: the node mapping of mesh i is old_to_new[off_i : off_i + size_i] with the offsets used to shift its connectivity", min_instances=1)
     fm = repo.cls(MESH).methods["Merge"]
     r4.instance(fn=fm.qualname)
@@ -352,3 +353,31 @@ def ownership_rule(ctx, fg):
         r.ok(f"{table}[{rank}].update(claimed) before the next rank")
     else:
         r.fail(fg.qualname, "claim-recorded", fg.file, st.lineno, "__Get_partitioned_groupElems", "the claimed nodes are not recorded in the shared per-rank table within the rank iteration: the following ranks claim the interface nodes again")
+
+
+def ghost_scope_rule(ctx, fg):
+    """R20.6: the ghost search of a rank follows every node the rank owns (its entry of the shared per-rank table, which
+    accumulates the claims made through all element groups), not only the nodes claimed through the current group."""
+    from ..flow import Locals
+
+    r = ctx.rule("R20.6", "ghost-layer scope on multi-group meshes: the node set of the ghost search is the rank's entry of the shared ownership table (all groups), not the claim of the current group", min_instances=1)
+    L = Locals(fg.node)
+    r.instance(fn=fg.qualname)
+    params = set(fg.params())
+    hit = None
+    for n in ast.walk(fg.node):
+        if isinstance(n, ast.Call) and (dotted(n.func) or "") == "np.isin" and len(n.args) >= 2:
+            par = [p for p in ast.walk(fg.node) if isinstance(p, ast.Attribute) and p.attr == "any" and p.value is n]
+            if par:
+                hit = n
+    if hit is None:
+        r.fail(fg.qualname, "ghost-scope", fg.file, fg.lineno, "__Get_partitioned_groupElems", "ghost search np.isin(<other connectivity>, <owned nodes>).any(...) not found")
+        return
+    src = L.expand(hit.args[1])
+    core = src
+    while isinstance(core, ast.Call) and core.args and (dotted(core.func) or "") in ("np.array", "np.asarray", "list", "sorted", "np.fromiter", "np.sort", "tuple", "set"):
+        core = core.args[0]
+    if isinstance(core, ast.Subscript) and isinstance(core.value, ast.Name) and core.value.id in params:
+        r.ok(f"ghost search over `{norm_text(src)[:70]}` (the rank's entry of the shared table)")
+    else:
+        r.fail(fg.qualname, "ghost-scope", fg.file, hit.lineno, "__Get_partitioned_groupElems", f"the ghost search uses `{norm_text(src)[:90]}`: the nodes claimed through the current element group only. On a mesh with several groups a rank that owns interface nodes but holds no element of this group gets no ghost of it: owned rows of the assembled system are incomplete")
